@@ -259,7 +259,7 @@ class Verdicts:
             if key in seen:
                 continue
             seen.add(key)
-            if len(seen) > 10:
+            if len(seen) > 25:
                 break
             h = hashlib.sha1(key.encode()).hexdigest()[:10]
             path = os.path.join(REPLAYS, "%s-%s.json" % (self.pid, h))
